@@ -14,6 +14,7 @@ RULE = ('payload = pickle opcode program referencing a global through one route 
         'canary objects and a result-type walker watch; non-trivial = payload that references a global; distinct = '
         'distinct payload bytes')
 RULE_MORE = (' Also: layering of program / instance sections, connections whose set-up failed part-way, several pickles in one frame, and the same routes under python -O / -OO.')
+RULE_MORE = RULE_MORE + " Rounds 10-11: module / attribute names and number literals that are str.format or % templates; any look-up in the canary module and any read of a function's __globals__ / __code__ while a payload is handled is a violation."
 RULE = RULE + RULE_MORE
 EXHAUSTIVE = {'quick': True, 'thorough': True}
 EXHAUSTIVE_OVER = 'all (module, attribute) pairs of every module in sys.modules of the booted process via GLOBAL and STACK_GLOBAL'
